@@ -10,9 +10,10 @@ import (
 )
 
 type Job struct {
-	Mode string `json:"mode"` // layer | udp | tcp
-	P    Params `json:"p"`
-	Acts []Act  `json:"acts"`
+	Mode string   `json:"mode"` // layer | udp | tcp
+	P    Params   `json:"p"`
+	Acts []Act    `json:"acts"`
+	Plan []string `json:"plan"` // obsbw
 }
 
 // Run executes every job (one JSON object per line).
@@ -49,6 +50,8 @@ func Run(jobPath, out string) {
 				res[i] = RunLayer(jobs[i].P, jobs[i].Acts, true)
 			case "udp":
 				res[i] = RunUDP(jobs[i].P, jobs[i].Acts)
+			case "obsbw":
+				res[i] = RunObsBW(jobs[i].P, jobs[i].Plan)
 			case "tcpconc":
 				res[i] = RunTCPConc(jobs[i].P, 3)
 			default:
